@@ -457,7 +457,7 @@ def expected(ctx, x):
     if ctx == 'init_long' or ctx == 'case' and False:
         return convert('i64', v)
     if ctx.startswith('init_'):
-        return convert(ctx[5:], v)
+        return convert('i64', convert(ctx[5:], v))          # printed through (long)
     if ctx == 'case':
         return 1
     if ctx == 'bitw':
@@ -469,16 +469,17 @@ def expected(ctx, x):
     return v
 
 
-def model_expected(ctx, x, wrap):
-    """what the *model* predicts the program prints: wrap = int64 image printed by drv_c07 for x"""
+def model_expected(ctx, x, wrap, gvar=None):
+    """what the *model* predicts the program prints: wrap = int64 image printed by drv_c07 for x,
+    gvar = object bits from Gen.storeGvar"""
     if ctx == 'init_long':
         return wrap
     if ctx.startswith('init_'):
         t = ctx[5:]
-        bits = wrap % (1 << (8 * SIZE[t]))          # write_buf keeps the low sz bytes
+        bits = gvar
         if t == 'bool':
             return bits
-        return bits - (1 << BITS[t]) if t in SIGNED and bits >= (1 << (BITS[t] - 1)) else bits
+        return convert('i64', bits - (1 << BITS[t]) if t in SIGNED and bits >= (1 << (BITS[t] - 1)) else bits)
     if ctx == 'case':
         return None          # the label is compared at run time with the run-time value: checked through 'rt'
     if ctx == 'bitw':
@@ -510,6 +511,25 @@ def compile_run(ctx, cc, src_path, exe, timeout=120):
     return vals, ''
 
 
+def run_model(ctx, corr, text):
+    """the Lean model and Spec on `text`.  The driver is run by Lean's IR interpreter (`lean --run`): the toolchain's clang
+    miscompiles the natively compiled driver at -O3 (observed: ITy.promote dropped), the interpreter and the kernel agree.
+    The native executable is still built (framework convention) and compared once; a difference is recorded, not trusted."""
+    exe, err = ctx.build_driver()
+    if exe is None:
+        raise ModelBuildFailure(err)
+    rc, o, e = sh(['lake', 'env', 'lean', '--run', 'ChibiVerif/Driver/C07Main.lean', 'eval'], cwd=ctx.lean_dir, input=text, timeout=3000)
+    if rc != 0:
+        raise RuntimeError(f'drv_c07 (interpreted) failed rc={rc}: {e[-500:]}')
+    if not getattr(ctx, '_c07_native_checked', False):
+        ctx._c07_native_checked = True
+        rc2, o2, e2 = sh([exe, 'eval'], input=text, timeout=600)
+        if o2 != o:
+            n = sum(1 for a, b in zip(o.splitlines(), o2.splitlines()) if a != b)
+            corr.extra['native_driver_differs_from_interpreter'] = f'{n} of {len(o.splitlines())} lines (clang -O3 miscompilation of the emitted C; interpreter output used)'
+    return o
+
+
 def run_batch(ctx, corr, cases, tag):
     """cases: list of (k, e, ctxs); returns False as soon as something was reported"""
     # 1. model + spec through the driver
@@ -519,11 +539,20 @@ def run_batch(ctx, corr, cases, tag):
         for c, x in [('rt', e)] + ctxs:
             lines.append('eval ' + sexpr(x))
             index.append((k, c, x))
-    out = ctx.driver('eval', '\n'.join(lines) + '\n').splitlines()
+            if c.startswith('init_') and c != 'init_long':
+                lines.append(f'gvar {c[5:]} ' + sexpr(x))
+                index.append((k, 'gvar', x))
+    out = run_model(ctx, corr, '\n'.join(lines) + '\n').splitlines()
     if len(out) != len(lines):
         raise RuntimeError(f'drv_c07 answered {len(out)} lines for {len(lines)} expressions')
     drv = {}
     for (k, c, x), line in zip(index, out):
+        if c == 'gvar':
+            if not line.isdigit():
+                corr.disagreements.append({'kind': 'storeGvar (model) fails on a defined initializer', 'input': sexpr(x), 'model': line})
+                return False
+            drv[(k, c)] = int(line)
+            continue
         f = dict(w.split('=', 1) for w in line.split())
         drv[(k, c)] = f
         spec = None if f['spec'] == 'none' else int(f['spec'])
@@ -578,7 +607,7 @@ def run_batch(ctx, corr, cases, tag):
                                            'spec': want, 'gcc': g, 'sexpr': sexpr(x)})
                 return False
             wrap = int(drv[(k, c)]['wrap'][3:])
-            m = wrap if c == 'rt' else model_expected(c, x, wrap)
+            m = wrap if c == 'rt' else model_expected(c, x, wrap, drv.get((k, 'gvar')))
             if c != 'rt' and m is not None and m != r:
                 corr.disagreements.append({'kind': 'model (Gen.eval2 . elabE, consumer conversion) differs from what chibicc folded',
                                            'input': render(x, 'const'), 'ctx': c, 'model': m, 'impl': r, 'sexpr': sexpr(x)})
@@ -586,7 +615,8 @@ def run_batch(ctx, corr, cases, tag):
                     corr.violations.append(violation(c, e, x, want, r, g))
                 return False
             if r != want:
-                corr.violations.append(violation(c, e, x, want, r, g))
+                v = violation(c, e, x, want, r, g)
+                corr.violations.append(v)
                 return False
     return True
 
@@ -866,7 +896,7 @@ def consumers_tie(ctx, corr):
     txt = open(os.path.join(ctx.lean_dir, 'ChibiVerif/Gen/ConstEvalGen.lean')).read()
     cons = re.findall(r'^\s*\("(\w+)", "([^"]+)", (\d+), (true|false)\)', txt, re.M)
     lines = ''.join(f'store {f} {d} 4294967301\n' for f, d, b, s in cons)
-    out = ctx.driver('eval', lines).splitlines()
+    out = run_model(ctx, corr, lines).splitlines()
     for (f, d, b, s), o in zip(cons, out):
         want = 5 if b == '32' else 4294967301
         if o != str(want):
